@@ -17,6 +17,8 @@ CHECKS = {
          "All chain lengths up to the bound, all snapshot positions and all choices of v are enumerated on both backends; replace iff the window rule, declined requests leave the record (bytes, counter, timestamp) untouched; the unspecified corner (v = non-nil chain base) accepts either outcome.", "4.1, 5/C10"),
  "C11": ("E-SEQ", "model_checking", "explicit-state BFS; GetSnapshot compared with the model's last accepted snapshot in every state and the chain walked from it",
          "In every reachable state GetSnapshot must return id and bytes of the last accepted upload (or none), and following children from that id must reach latest without gone. The concurrent half of the property is decided by C03's scheduler runs.", "4.1, 5/C11"),
+ "C12": ("E-SWEEP+E-SEQ", "model_checking", "full product of boundary configurations x boundary measures on the real Server::add_version (both backends) + explicit-state BFS with snapshot ageing; exact-arithmetic model",
+         "The urgency computation is executed for the full product of boundary target values (0, 1, odd, type extremes, thirds of the type range) and boundary measures around every threshold, on both backends, each under catch_unwind with overflow checks on, and compared with an exact-arithmetic model; monotonicity is checked over the swept grid. Histories with ageing snapshots check that the stored counter equals the number of versions accepted since the snapshot and that the reported urgency follows from the pre-request record.", "5/C12"),
  "C13": ("E-SEQ", "model_checking", "explicit-state BFS with in-memory, SQLite and SQLite-reopened-before-every-request in lock step; responses and dumps compared pairwise",
          "Every transition and probe is executed in lock step on the in-memory backend, SQLite, and SQLite with a new storage object before every request; responses (modulo random ids) and stored state must be identical, and answers must not change across an explicit reopen.", "4.1, 5/C13"),
  "C14": ("E-SEQ", "model_checking", "explicit-state BFS with HTTP and library twins on twin storages; exact header/status/body encoding checked on every response",
@@ -54,10 +56,12 @@ def main():
             "enable": "the harness depends on /repo/core by path with features=[\"verif-hooks\"]; cargo feature unification turns it on for /repo/sqlite and /repo/server too",
             "baseline_off_cmd": "cd /repo && cargo test --workspace --no-fail-fast --offline",
             "source_commits": ["b92f929"],
+            "fix_commits": ["2d7c899"],
             "add_only": True,
         },
         "engines": [
-            {"name": "E-SEQ", "path": "harness/src/eseq.rs", "serves_properties": [p for p in sorted(CHECKS) if CHECKS[p][0] == "E-SEQ"], "kind_free_text": "explicit-state breadth-first exploration of symbolic request histories; the transition function is the real Server / actix handler / storage code; reference model compared on every transition"},
+            {"name": "E-SWEEP", "path": "harness/src/esweep.rs", "serves_properties": ["C12"], "kind_free_text": "exhaustive product of boundary configurations and measures executed on the real urgency computation"},
+            {"name": "E-SEQ", "path": "harness/src/eseq.rs", "serves_properties": [p for p in sorted(CHECKS) if "E-SEQ" in CHECKS[p][0]], "kind_free_text": "explicit-state breadth-first exploration of symbolic request histories; the transition function is the real Server / actix handler / storage code; reference model compared on every transition"},
         ],
         "checks": checks,
         "notes": "All checks: ./check <ID> <quick|thorough> [--replay file]; exit 0 held / 1 violation / 2 machinery error. known_findings.json lists open and fixed findings.",
